@@ -463,7 +463,7 @@ def check_detector(rec, obs, spec, X, label, t, base, record=True):
         rec.violation(f"{name}:{tlabel(t)}:raises", f"{name}({spec['kwargs']}) returns {out} on X (n={n},p={p}) but raises on the transformed X "
                       f"({t}): {o2}", "C12.detector", inp)
     elif o2 != want:
-        what = "affected columns" if [r[:2] for r in o2] == [r[:2] for r in want] and name == "MVCAPA" else "detections"
+        what = "affected columns" if name == "MVCAPA" and [r[:2] for r in o2] == [r[:2] for r in want] else "detections"
         rec.violation(f"{name}:{tlabel(t)}" + (":columns" if what == "affected columns" else ""),
                       f"{name}({spec['kwargs']}) on n={n},p={p}: {what} {out} on X (stable under 1e-7 perturbations) but {o2} on the "
                       f"transformed X ({t}); expected {want}", "C12.detector", inp)
@@ -486,6 +486,15 @@ def reversal_observation(obs, spec, X, base):
             {"kwargs": spec["kwargs"], "X": X, "detections": out, "reversed_run_mirrored": mir})
 
 
+def spread_ok(X, m):
+    """Every window of m consecutive rows has variance >= 1e-4 in every column (else the Gaussian cost sits at its 1e-16
+    variance floor, where prefix-sum rounding decides the value: outside 'moderate dynamic range')."""
+    for s in range(len(X) - m + 1):
+        if np.min(X[s:s + m].var(axis=0)) < 1e-4:
+            return False
+    return True
+
+
 def pelt_reversal_sweep(rec, obs, tier, seed):
     """PELT's optimal penalised cost under time reversal on small n first (a float comparison: no margin rule, two runs)."""
     rng = np.random.default_rng(seed + 55)
@@ -493,7 +502,9 @@ def pelt_reversal_sweep(rec, obs, tier, seed):
     for n in range(4, 13):
         for p in (1, 2):
             for r in range(reps):
-                X = np.round(detector_data("change", n, p, rng), 2)
+                X = detector_data("change", n, p, rng)
+                if not spread_ok(X, 2):
+                    continue
                 for cost, ms in (("L2Cost", (1, 2, 3)), ("GaussianVarCost", (2, 3))):
                     for m in ms:
                         if n < 2 * m:
@@ -514,6 +525,8 @@ def detector_level(rec, obs, tier, seed):
     for n, p in shapes:
         for r in range(reps):
             data = {"change": detector_data("change", n, p, rng), "anomaly": detector_data("anomaly", n, p, rng)}
+            while not (spread_ok(data["change"], 2) and spread_ok(data["anomaly"], 2)):
+                data = {"change": detector_data("change", n, p, rng), "anomaly": detector_data("anomaly", n, p, rng)}
             for spec in detector_specs(n, p, tier):
                 kind = "anomaly" if spec["detector"] in ("CAPA", "MVCAPA", "CircularBinarySegmentation") else "change"
                 X = data[kind]
